@@ -21,7 +21,9 @@ EXHAUSTIVE = {"quick": True, "thorough": True}
 ASSUMPTIONS = ["scipy.stats.chi2.sf / t.sf and numpy.linalg.lstsq are trusted", "lambda<0 statistics are compared only on tables without zero cells (undefined otherwise)",
                "continuous frames with (numerically) zero residual variance are excluded (correlation undefined)"]
 
-LAMBDAS = [("pearson", 1.0), ("log-likelihood", 0.0), (2.0 / 3, 2.0 / 3), ("freeman-tukey", -0.5), ("mod-log-likelihood", -1.0), ("neyman", -2.0)]
+LAMBDAS = [("pearson", 1.0), ("log-likelihood", 0.0), (2.0 / 3, 2.0 / 3), ("freeman-tukey", -0.5), ("mod-log-likelihood", -1.0), ("neyman", -2.0),
+           # the same exponents given as NUMBERS (0 and 1 are falsy / special-cased values)
+           (0, 0.0), (1, 1.0), (0.0, 0.0), (-0.5, -0.5), (-1, -1.0), (-2.0, -2.0), ("cressie-read", 2.0 / 3)]
 
 
 def groups(tier, seed):
@@ -148,20 +150,20 @@ def _disc(st, dom, idxs, cat=False, table=None):
             chi, dof, zero, nondeg, nstrata = ref_stat(rows, 0, 1, zis, lam)
             if lam < 0 and zero:
                 continue
-            if lam not in (1.0, 0.0) and (sum(idxs) + len(Z)) % 3 and table is None:
-                continue  # the lambda grid beyond {pearson, G} is visited on every third data set (deterministic)
+            if (lam not in (1.0, 0.0) or not isinstance(lname, str)) and (sum(idxs) + len(Z)) % 3 and table is None:
+                continue  # the lambda grid beyond the named {pearson, G} is visited on every third data set (deterministic)
             p = pval(chi, dof)
             if nondeg >= 2 or (nstrata > nondeg) or zero:
                 st.nt((tuple(idxs), tuple(Z), variant))
             tests = [("power_divergence", lambda **kw: CITests.power_divergence(lambda_=lname, **kw))]
-            if lam == 1.0:
+            if lam == 1.0 and isinstance(lname, str):
                 tests.append(("chi_square", CITests.chi_square))
-            if lam == 0.0:
+            if lam == 0.0 and isinstance(lname, str):
                 tests += [("g_sq", CITests.g_sq), ("log_likelihood", CITests.log_likelihood)]
-            if lam == -1.0:
+            if lam == -1.0 and isinstance(lname, str):
                 tests.append(("modified_log_likelihood", CITests.modified_log_likelihood))
             for tname, fn in tests:
-                case = dict(base, site=tname, test=str(lname), Z=Z)
+                case = dict(base, site=tname, test=repr(lname), Z=Z)
                 st.evals += 1
                 st.transitions += 1
                 res, err = _call(fn, X="X", Y="Y", Z=Z, data=df, boolean=False)
